@@ -25,8 +25,8 @@ class IL:
     """One program of the leg: startup_iter / startup_chunk (0 = runtime default), join shape?, keep_next (-1 = runtime
     default (on), 0 = MCA runtime_keep_highest_priority_task off: every ready task goes through the scheduler queue
     instead of being retained in es->next_task)."""
-    def __init__(self, prog, it=0, ch=0, join=False, keep=-1):
-        self.prog, self.it, self.ch, self.join, self.keep = prog, it, ch, join, keep
+    def __init__(self, prog, it=0, ch=0, join=False, keep=-1, compose_only=False):
+        self.prog, self.it, self.ch, self.join, self.keep, self.compose_only = prog, it, ch, join, keep, compose_only
         self.name = prog.name
 
 
@@ -62,6 +62,13 @@ def programs():
         Cls('S(k)', ['k = 0 .. N-1'], 'A(k)', [Flow('READ X', ['A(k)']), Flow('CTL C', [], ['C J(0)'])]),
         Cls('U(z)', ['z = 0 .. 0'], 'E(0)', [Flow('READ X', ['E(0)']), Flow('CTL D', [], ['D J(0)'])]),
         Cls('J(z)', ['z = 0 .. 0'], 'B(0)', [Flow('RW Y', ['B(0)'], ['B(0)']), Flow('CTL C', ['C S(0 .. N-1)']), Flow('CTL D', ['D U(0)'])])]), it=1, ch=1))
+    # (f) member of the compounds of C15 (legs il-compose-*): one task; two tasks of one class.  Run with the next_task
+    #     retention off: the pool enabled by a completion callback is then picked up from the queue by the other stream
+    #     while the enabling stream is still inside the callback
+    P.append(IL(Prog('il_one', {'A': '1'}, ['N'], V(N=1), [
+        Cls('T(k)', ['k = 0 .. N-1'], 'A(0)', [Flow('READ X', ['A(0)'])])]), keep=0, compose_only=True))
+    P.append(IL(Prog('il_two', {'A': '1'}, ['N'], V(N=2), [
+        Cls('T(k)', ['k = 0 .. N-1'], 'A(0)', [Flow('READ X', ['A(0)'])])]), keep=0, compose_only=True))
     return P
 
 
@@ -82,7 +89,7 @@ def build(ctx, only=None):
     shutil.rmtree(tmp, ignore_errors=True)
     os.makedirs(tmp)
     ptgpp = os.path.join(b, 'parsec/interfaces/ptg/ptg-compiler/parsec-ptgpp')
-    progs = [x for x in programs() if not only or x.name in only]
+    progs = [x for x in programs() if (x.name in only if only else not x.compose_only)]
     B = Built(); B.progs = progs; B.refs = {}; B.exes = {}
     h = hashlib.sha256()
     for il_ in progs:
@@ -145,6 +152,8 @@ def plan(tier, c01_only):
     (coarse grain: lock-protected internals of the repo / hash-table / queue primitives are atomic, see c02_il.c)"""
     pl = []
     for x in programs():
+        if x.compose_only:
+            continue
         if tier == 'quick':
             pl.append((x.name, 'fine', 1, 40, 1))
             if x.join and not c01_only:
@@ -161,7 +170,7 @@ def plan_mode(tier, names):
     return [(n, 'fine', 1, 40, 1) if tier == 'quick' else (n, 'fine', 2, 300, 2) for n in names]
 
 
-def run(ctx, B, c01_only=False, mode=None, again=0, names=None, starve0=False, names_starve0=None):
+def run(ctx, B, c01_only=False, mode=None, again=0, names=None, starve0=False, names_starve0=None, task_fields=1, compose=0):
     """Run the il legs (all in parallel); one evidence leg per (program, back-end, grain) with the per-region point counts.
     mode='tpwait' / again=K select the C06 / C16 variants of the two thread bodies, starve0 the variant in which stream 0
     never gets a task (see c02_il.c)."""
@@ -171,8 +180,8 @@ def run(ctx, B, c01_only=False, mode=None, again=0, names=None, starve0=False, n
     # starve0: False | True | 'both' (the normal variant and the one in which stream 0 never gets a task; names_starve0
     # restricts the starved variant to some programs)
     for st in ([False, True] if starve0 == 'both' else [bool(starve0)]):
-        sfx = ('-tpwait' if mode == 'tpwait' else '') + ('-starve0' if st else '') + ('-again%d' % again if again else '')
-        extra = (['--mode', mode] if mode else []) + (['--starve0'] if st else []) + (['--again', str(again)] if again else [])
+        sfx = ('-tpwait' if mode == 'tpwait' else '') + ('-compose%d' % compose if compose else '') + ('-starve0' if st else '') + ('-tf%d' % task_fields if task_fields != 1 else '') + ('-again%d' % again if again else '')
+        extra = (['--mode', mode] if mode else []) + (['--compose', str(compose)] if compose else []) + (['--starve0'] if st else []) + (['--task-fields', str(task_fields)] if task_fields != 1 else []) + (['--again', str(again)] if again else [])
         for name, grain, bound, dl, share in (plan_mode(ctx.tier, names) if names else plan(ctx.tier, c01_only)):
             if name not in byname or (st and names_starve0 and name not in names_starve0):
                 continue
@@ -210,7 +219,7 @@ def run(ctx, B, c01_only=False, mode=None, again=0, names=None, starve0=False, n
                 l['il'] = x
                 if x.get('executions_with_bodies_on_both_streams', 0) == 0:
                     ctx.broken.append('%s: no execution ran task bodies on both streams' % lab)
-                skip = {'task', 'data-copy'} | ({'dep-table'} if '-ia-' in lab else set()) | ({'stream.next_task'} if l['grain'] == 'coarse' else set())
+                skip = {'task', 'data-copy'} | (set() if '-compose' in lab else {'compound'}) | ({'task.status'} if ('-tf0' in lab or l['grain'] == 'coarse') else set()) | ({'dep-table'} if '-ia-' in lab else set()) | ({'stream.next_task'} if l['grain'] == 'coarse' else set())
                 z = [k for k, v in x['points_per_region'].items() if v == 0 and k not in skip]
                 if z:
                     ctx.broken.append('%s: watched region classes without a single access: %s' % (lab, z))
@@ -230,8 +239,8 @@ ASSUME = ['il legs: sequential consistency at instrumented accesses (no weak-mem
 def replay(ctx, path, obj):
     """Re-execute exactly the schedule of a replay file (fresh process), print cosched's trace and the last scheduling
     points with the source location of each access (thread, kind, region class, function at file:line <- caller)."""
-    B = build(ctx)
     sc = obj.get('scenario', '')
+    B = build(ctx, only=[sc.split('-')[0]])
     be = 'ia' if '-ia-' in sc else 'ht'
     os.environ['PARSEC_MCA_bind_threads'] = '0'
     env = dict(os.environ); env['IL_TRACE'] = '1'
@@ -241,6 +250,12 @@ def replay(ctx, path, obj):
         args += ['--mode', 'tpwait']
     if '-starve0' in sc:
         args.append('--starve0')
+    m = re.search(r'-compose(\d+)', sc)
+    if m:
+        args += ['--compose', m.group(1)]
+    m = re.search(r'-tf(\d)', sc)
+    if m:
+        args += ['--task-fields', m.group(1)]
     m = re.search(r'-again(\d+)', sc)
     if m:
         args += ['--again', m.group(1)]
